@@ -9,6 +9,7 @@ import (
 	"verif/internal/load"
 	"verif/internal/pe"
 	"verif/internal/report"
+	"verif/internal/spec"
 )
 
 // Full-language exploration of a scanner model: every reachable abstract state (bounded stack
@@ -532,4 +533,163 @@ func runSXComment(c *load.Ctx, r *report.RuleResult, name string) {
 	if len(edges) == 0 {
 		r.Unk("anchor|comment states", "", "no reachable state whose step function is a comment state")
 	}
+}
+
+// --- inline comments and annotations end with their line ----------------------------------------
+
+func init() {
+	for _, name := range []string{"schema", "enum"} {
+		name := name
+		register(&Rule{ID: "SX-eol-" + name, Min: map[string]int{"schema": 6, "enum": 2}[name], Run: func(c *load.Ctx, r *report.RuleResult) { runSXEol(c, r, name) },
+			Doc: "scanner " + name + ": an inline comment or inline annotation ends with its line: in every reachable abstract state whose step function is one of the inline comment / inline annotation states (including the state right after the opening # or //), a line-break byte is accepted, takes the scanner out of those states and is delivered as a new-line event — a line break that is swallowed (an empty # or // at the end of a line) turns the whole next line into comment text, so the same schema or rule means something else depending on whether a comment has text"})
+	}
+}
+
+// inlineStates: the step functions in which the scanner is inside a one-line comment or annotation.
+func isInlineStep(step string) bool {
+	step = baseStepName(step)
+	switch step {
+	case "stateAnyCommentStart", "stateInlineComment":
+		return true
+	}
+	return strings.HasPrefix(step, "stateInlineAnnotation") && step != "stateInlineAnnotationStart"
+}
+
+// isClosureStep: an anonymous wrapper installed by a state (its name carries the parent's).
+func isClosureStep(step string) bool {
+	return strings.Contains(strings.TrimSuffix(step, "$bound"), "$")
+}
+
+func runSXEol(c *load.Ctx, r *report.RuleResult, name string) {
+	sp := scannerSpecs[name]
+	g := exploreScanner(c, name, sp)
+	if g.err != nil {
+		r.Unk("anchor|"+sp.rel, "", g.err.Error())
+		return
+	}
+	count := map[string]int{}
+	bad := map[string]bool{}
+	for _, e := range g.edges {
+		if e.input != '\n' && e.input != '\r' {
+			continue
+		}
+		from := baseStepName(implStepName(g.m, e.from.st))
+		if !isInlineStep(from) || isClosureStep(implStepName(g.m, e.from.st)) {
+			continue
+		}
+		count[from]++
+		key := "eol|impl=" + from
+		if bad[key] {
+			continue
+		}
+		in := fmt.Sprintf("%q", string([]byte{byte(e.input)}))
+		switch {
+		case e.res.Kind == "reject":
+			bad[key] = true
+			r.Bad(key, c.Pos(g.m.next.Pos()), fmt.Sprintf("a line break right there is rejected (code %s); text reaching the state: %q then %s", e.res.Code, e.from.path, in))
+		case e.res.Kind != "ok" || e.res.Next == nil:
+			// crashes and undecided transitions are reported by SX-crash
+		case e.res.Consumed <= 0:
+			// the byte is handed back and read again by the state returned to: judged there
+		case isInlineStep(implStepName(g.m, e.res.Next)) && !isClosureStep(implStepName(g.m, e.res.Next)):
+			bad[key] = true
+			r.Bad(key, c.Pos(g.m.next.Pos()), fmt.Sprintf("the line break %s does not end the comment/annotation: the scanner stays in %s, so the next line is read as comment text; text reaching the state: %q", in, baseStepName(implStepName(g.m, e.res.Next)), e.from.path))
+		case e.res.Consumed > 0 && !hasEvent(e.res.Events, "NewLine"):
+			bad[key] = true
+			r.Bad(key, c.Pos(g.m.next.Pos()), fmt.Sprintf("the line break %s is consumed without a new-line event (%s); text reaching the state: %q", in, evsString(e.res.Events), e.from.path))
+		}
+	}
+	for _, st := range sortedKeys(count) {
+		if !bad["eol|impl="+st] {
+			r.OK("eol|impl="+st, "", fmt.Sprintf("%d line-break transitions leave the inline comment/annotation", count[st]))
+		}
+	}
+	if len(count) == 0 {
+		r.Unk("anchor|inline states", "", "no reachable state whose step function is an inline comment/annotation state")
+	}
+}
+
+func hasEvent(evs []spec.Ev, typ string) bool {
+	for _, ev := range evs {
+		if ev.Type == typ {
+			return true
+		}
+	}
+	return false
+}
+
+// --- a blank between tokens is not remembered ------------------------------------------------------
+
+func init() {
+	for _, name := range []string{"json", "schema", "enum"} {
+		name := name
+		register(&Rule{ID: "SX-blank-" + name, Min: 5, Run: func(c *load.Ctx, r *report.RuleResult) { runSXBlank(c, r, name) },
+			Doc: "scanner " + name + ": layout blanks leave no trace: in every reachable abstract state outside content states (string bodies, comment and note text, bare rule names), a space that is accepted without delivering a lexical event and without handing over to another step function leaves the scanner in the very same abstract state (stack, flags, context) — a flag set by a mere blank (such as 'the array has an item') makes `[ ]` scan differently from `[]`, so indentation and spacing change the verdict"})
+	}
+}
+
+func runSXBlank(c *load.Ctx, r *report.RuleResult, name string) {
+	sp := scannerSpecs[name]
+	g := exploreScanner(c, name, sp)
+	if g.err != nil {
+		r.Unk("anchor|"+sp.rel, "", g.err.Error())
+		return
+	}
+	count := map[string]int{}
+	bad := map[string]bool{}
+	for _, e := range g.edges {
+		if e.input != ' ' || len(e.from.pending) != 0 {
+			continue
+		}
+		full := implStepName(g.m, e.from.st)
+		from := baseStepName(full)
+		if _, content := contentStates[from]; content {
+			continue
+		}
+		if e.res.Kind != "ok" || e.res.Next == nil || len(e.res.Events) != 0 || e.res.Consumed != 1 || len(e.res.LA) != 0 {
+			continue
+		}
+		count[from]++
+		if e.res.Next.key == e.from.st.key || implStepName(g.m, e.res.Next) != full {
+			// unchanged, or the blank ended a token / phase (another step function takes over)
+			continue
+		}
+		key := "blank|impl=" + from
+		if bad[key] {
+			continue
+		}
+		bad[key] = true
+		r.Bad(key, c.Pos(g.m.next.Pos()), fmt.Sprintf("a space is accepted silently but changes the scanner's state (%s -> %s): %s; text reaching the state: %q", full, implStepName(g.m, e.res.Next), stateDiff(e.from.st.key, e.res.Next.key), e.from.path))
+	}
+	for _, st := range sortedKeys(count) {
+		if !bad["blank|impl="+st] {
+			r.OK("blank|impl="+st, "", fmt.Sprintf("%d silent-space transitions return to the same abstract state", count[st]))
+		}
+	}
+	if len(count) == 0 {
+		r.Unk("anchor|blank transitions", "", "no state accepts a space silently")
+	}
+}
+
+// stateDiff shows where two abstract state keys differ (for the report only).
+func stateDiff(a, b string) string {
+	ra, rb := []rune(a), []rune(b)
+	i := 0
+	for i < len(ra) && i < len(rb) && ra[i] == rb[i] {
+		i++
+	}
+	cut := func(s []rune) string {
+		lo, hi := i-40, i+60
+		if lo < 0 {
+			lo = 0
+		}
+		if hi > len(s) {
+			hi = len(s)
+		}
+		if lo > hi {
+			return ""
+		}
+		return string(s[lo:hi])
+	}
+	return fmt.Sprintf("…%s… versus …%s…", cut(ra), cut(rb))
 }
